@@ -11,6 +11,16 @@ par clang++ -std=c++17 -c $CF $REPO/igris/protocols/gstuff.cpp -o $BUILD/gstuff.
 par clang -c $CF $REPO/igris/protocols/gstuff_v1/gstuff.c -o $BUILD/gstuff_v1.o
 par clang -c $CF $REPO/igris/protocols/gstuff_v1/autorecv.c -o $BUILD/autorecv_v1.o
 par clang++ -std=c++17 -O2 -c -I$MC $MC/mc.cpp -o $BUILD/mc.o
+# release-mode variant: the other compiler at -O2 with -DNDEBUG (an assert that carries a side effect vanishes), ASan;
+# re-runs a cheap selection of the round-trip sub-checks
+N=$BUILD/ndebug; mkdir -p $N
+NF="-O2 -g -DNDEBUG -fsanitize=address -fno-omit-frame-pointer -I$REPO -I$MC -I$H"
+par g++ -std=c++17 -c $NF $H/c04_roundtrip.cpp -o $N/h.o
+par g++ -std=c++17 -c $NF -DGS_PUBLIC_ONLY $H/gs_bind_cfg.cpp -o $N/bind_cfg.o
+par g++ -std=c++17 -c $NF $H/gs_bind_legacy.cpp -o $N/bind_legacy.o
+par g++ -std=c++17 -c $NF $REPO/igris/protocols/gstuff.cpp -o $N/gstuff.o
+par gcc -c $NF $REPO/igris/protocols/gstuff_v1/gstuff.c -o $N/gstuff_v1.o
+par gcc -c $NF $REPO/igris/protocols/gstuff_v1/autorecv.c -o $N/autorecv_v1.o
 # re-entrancy run: the same bindings and library sources under ThreadSanitizer, two threads on the controlled scheduler
 # (sched.cpp and mc.cpp stay uninstrumented: TSan then sees only what the code under test does)
 T=$BUILD/tsan; mkdir -p $T
@@ -26,7 +36,10 @@ par g++ -std=c++17 -O2 -I$MC -c $MC/mc.cpp -o $BUILD/mc_gcc.o
 parwait
 g++ -fsanitize=thread $T/h.o $T/bind_cfg.o $T/bind_legacy.o $T/gstuff.o $T/gstuff_v1.o $T/autorecv_v1.o $BUILD/sched.o $BUILD/mc_gcc.o \
     -ldl -lpthread -o $BUILD/c04_tsan
+g++ -fsanitize=address $N/h.o $N/bind_cfg.o $N/bind_legacy.o $N/gstuff.o $N/gstuff_v1.o $N/autorecv_v1.o $BUILD/mc_gcc.o -o $BUILD/c04_ndebug
 clang++ -fsanitize=address $BUILD/h.o $BUILD/bind_cfg.o $BUILD/bind_legacy.o $BUILD/gstuff.o $BUILD/gstuff_v1.o \
     $BUILD/autorecv_v1.o $BUILD/mc.o -o $BUILD/c04
-echo "roundtrip $BUILD/c04" > $BUILD/runs.txt
-echo "reentrancy $BUILD/c04_tsan" >> $BUILD/runs.txt
+# cheap runs first: the driver gives each run an equal share of the remaining deadline
+echo "reentrancy $BUILD/c04_tsan" > $BUILD/runs.txt
+echo "roundtrip_ndebug_gcc_O2 $BUILD/c04_ndebug --only all_bytes_len1_len2,alignment_x_length,large_payloads,cut_then_frames,two_receivers,readonly_inputs,alphabet_constants" >> $BUILD/runs.txt
+echo "roundtrip $BUILD/c04" >> $BUILD/runs.txt
